@@ -43,6 +43,17 @@ fn targets(tier: Tier) -> Vec<Target> {
     let big = tier.pick(9000usize, 13000usize);
     let e = enc::encode(3, 0, 2, 4096, &grow(big));
     t.push(dec(&format!("lzma_decompress {} bytes through a 4096-byte window (window flushed more than once)", big), Fmt::Lzma, enc::lzma_file(3, 0, 2, 4096, Some(big as u64), &e.payload), true));
+    {
+        // 3896 varied bytes, then a non-overlapping match M(200,200) ending exactly at 4096; the same again at 8192
+        let mut p = grow(3896);
+        p.push(Sym::M(200, 200));
+        p.extend(grow(3896).into_iter().map(|s| if let Sym::L(b) = s { Sym::L(b ^ 0x55) } else { s }));
+        p.push(Sym::M(200, 200));
+        p.push(Sym::L(7));
+        let e = enc::encode(3, 0, 2, 4096, &p);
+        assert!(e.bad.is_none() && e.expect.len() == 8193);
+        t.push(dec("lzma_decompress: non-overlapping matches ending exactly at the 4096 and 8192 window boundaries", Fmt::Lzma, enc::lzma_file(3, 0, 2, 4096, Some(8193), &e.payload), true));
+    }
     // ---- LZMA2
     let blob: Vec<u8> = (0..66000u32).map(|i| (i.wrapping_mul(2654435761) >> 24) as u8).collect();
     let w = lzma2::write(&[
